@@ -28,7 +28,7 @@ use vh::gsupport::{ev, take_events};
 
 def key(s):
     return "/".join([s["recv"], ",".join(s["params"]) or "-", s["form"], f"{s['pos']}of{s['n']}" + ("+static" if s.get("static_first") else ""),
-                     s["asy"], s["mode"], "provided" if s.get("dflt") else "required"])
+                     s["asy"], s["mode"], "provided" if s.get("dflt") else "required"] + (["provided-sibling"] if s.get("sib") else []))
 
 
 def self_ty(recv):
@@ -92,6 +92,10 @@ def render(idx, s):
         {9000 + k}
     }}""")
     sized = ": Sized" if recv == "own" else ""
+    if s.get("sib"):
+        # another method of the trait has a default body: that is no property of `f`
+        methods.append("        fn hsib(&self) -> u64 { 77 }")
+        unmocks.append("_")
     if static_first:
         # a provided function without receiver: skipped by the macro, but it still occupies a
         # position of the unmock_with list
@@ -233,6 +237,13 @@ def shapes(tier):
             if form == "none" and dflt and mode == "partial":
                 continue  # unmentioned provided method: the default body runs (covered with form=path)
             out.append(dict(recv=recv, params=p, form=form, n=2, pos=1, asy=asy, mode=mode, dflt=dflt, static_first=static_first))
+    # a provided sibling method in the trait (the target itself is a required method)
+    for recv, asy, mode, form in itertools.product(RECVS, ["sync", "async_fn"], ["strict", "partial", "partial_unmatched"], ["path", "none"]):
+        if form == "none" and mode == "partial_unmatched":
+            continue
+        if tier == "quick" and asy == "async_fn" and recv not in ("ref", "mut"):
+            continue
+        out.append(dict(recv=recv, params=["u8"], form=form, n=2, pos=1, asy=asy, mode=mode, sib=True))
     return out
 
 
